@@ -270,7 +270,11 @@ def other_unit_inputs(ck, date, tier, rnd):
     from _gettsim.config import DEFAULT_TARGETS, TYPES_INPUT_VARIABLES
     inputs = [n for n in TYPES_INPUT_VARIABLES if PAT.fullmatch(n) and not PAT.fullmatch(n).group("agg")]
     rnd.shuffle(inputs)
-    inputs = inputs[:3] if tier == "quick" else inputs[:12]
+    # always: inputs that are the source of a built-in aggregation (the aggregation is built before the conversions)
+    from _gettsim.functions_loader import load_aggregation_dict
+    agg_sources = sorted({v.get("source_col") for typ in ("aggregate_by_p_id", "aggregate_by_group")
+                          for v in load_aggregation_dict(typ).values() if v.get("source_col") in inputs})
+    inputs = agg_sources + [n for n in (inputs[:3] if tier == "quick" else inputs) if n not in agg_sources]
     base = symdag.Dag(date)
     s = R.Sym(z3.Real("s"), float)
     for n in inputs:
